@@ -12,6 +12,12 @@ At every Eval of a walk the specification says which settings are in force (cfg,
   * the documented integral itself for cfg (World.documented: plain numpy on the layers the model exposes, the harness's
     Planck function, the rule and the opacity mode of cfg) at 1e-12 -- all terms are non-negative, exponents <= 40 where
     they matter; the direct image per unit of its one unpinned constant (all evaluations give the same ratio).
+Round 6 (route x history): the evaluation routes model_contrib() / model_full_contrib() are entries of Eval next to model() /
+partial_model(), and the temperature-profile point ("tp": model['T_surface'] / model['T']) and the absorber's mixing ratio
+("mix": model['H2O']) are settings next to the planet radius: all three move the layer profiles (altitude, density,
+chemistry) that every route has to initialise for the CURRENT settings.  One contribution with one absorber: each
+per-contribution spectrum is the documented integral itself, equals a fresh model's through the same route and equals the
+fresh model's model() (same arithmetic, 1e-12).
 Nothing here computes an expected value with the function under test other than through a FRESH object."""
 import math
 
@@ -26,13 +32,16 @@ RP = [1.0, 1.37, 0.8]                  # Jupiter radii
 TS = [5200.0, 4300.0, 6400.0]          # K
 DIST = [12.0, 7.5, 31.0]               # pc
 STAR_R = 0.9
-T_ISO = 1400.0
-T_SURF, T_TOP = 2100.0, 750.0
+T_ISO = [1400.0, 1150.0, 1720.0]       # "tp" of the isothermal worlds
+T_SURF, T_TOP = [2100.0, 1650.0, 2400.0], 750.0      # "tp" of the others: the surface point of the profile
+MIX = [1e-3, 2.6e-3, 4.1e-4]           # "mix": the absorber's mixing ratio (column <= 2.6 x TARGET_TAU: not_saturated)
+CONTRIB_ENTRIES = ('contrib', 'full_contrib')
 NLAYERS = 7
 TARGET_TAU = np.array([0.03, 0.4, 1.5, 4.0])      # column depth of the cross-section world at Rp = 1
 K_SPREAD = np.array([0.05, 1.0, 12.0])            # correlated-k: coefficients really differ across the points
 K_WEIGHTS = [0.25, 0.45, 0.3]
 REL = 1e-12
+PHYS = ('rp', 'ts', 'dist', 'tp', 'mix')
 
 
 class BadReturn(Exception):
@@ -69,7 +78,7 @@ class World:
                                np.zeros((2, 2, len(WN), len(K_WEIGHTS))), K_WEIGHTS)
         GlobalCache()['ktable_path'] = self.kdir
         GlobalCache()['opacity_method'] = 'xsec'
-        probe = self.build(dict(rp=0, ts=0, dist=0, quad=['gauss', 1], mode='xsec'))
+        probe = self.build(dict(rp=0, ts=0, dist=0, tp=0, mix=0, quad=['gauss', 1], mode='xsec'))
         m = probe
         col = float(np.sum(np.asarray(m.deltaz, dtype=float) * np.asarray(m.densityProfile, dtype=float)
                            * np.asarray(m.chemistry.get_gas_mix_profile(MOL), dtype=float)))
@@ -101,8 +110,8 @@ class World:
         from taurex.stellar import BlackbodyStar
         GlobalCache()['opacity_method'] = c['mode']
         chem = TaurexChemistry(fill_gases=['H2', 'He'], ratio=0.17)
-        chem.addGas(ConstantGas(MOL, 1e-3))
-        tp = Isothermal(T=T_ISO) if self.iso else NPoint(T_surface=T_SURF, T_top=T_TOP)
+        chem.addGas(ConstantGas(MOL, MIX[c.get('mix', 0)]))
+        tp = Isothermal(T=T_ISO[c.get('tp', 0)]) if self.iso else NPoint(T_surface=T_SURF[c.get('tp', 0)], T_top=T_TOP)
         n = self.counts[c['quad'][1]] if c['quad'][0] == 'gauss' else self.counts[1]
         kw = dict(planet=Planet(planet_mass=1.0, planet_radius=RP[c['rp']]),
                   star=BlackbodyStar(temperature=TS[c['ts']], radius=STAR_R, distance=DIST[c['dist']]), chemistry=chem,
@@ -126,6 +135,10 @@ class World:
             m.star.temperature = TS[v]
         elif name == 'dist':
             m.star.distance = DIST[v]
+        elif name == 'tp':
+            m['T' if self.iso else 'T_surface'] = (T_ISO if self.iso else T_SURF)[v]
+        elif name == 'mix':
+            m[MOL] = MIX[v]
         elif name == 'num_gauss':
             m.set_num_gauss(self.counts[v])
         elif name == 'quadratures':
@@ -137,8 +150,8 @@ class World:
 
     def move_to(self, m, cur, c):
         """bring a long-lived object to configuration c through the setters (a behaviour of the specification)"""
-        for name in ('rp', 'ts', 'dist'):
-            if cur[name] != c[name]:
+        for name in PHYS:
+            if cur.get(name, 0) != c.get(name, 0):
                 self.apply(m, name, 'param', c[name])
         if cur['quad'] != c['quad']:
             self.apply(m, 'num_gauss' if c['quad'][0] == 'gauss' else 'quadratures', '', c['quad'][1])
@@ -154,6 +167,22 @@ class World:
             if I.shape != (nq, len(WN)) or imu.shape != (nq,) or w.shape != (nq,):
                 raise BadReturn('partial_model() with %d angles in force returned shapes %r, %r, %r' % (nq, I.shape, imu.shape, w.shape))
             return np.concatenate([I.ravel(), imu, w])
+        if entry in CONTRIB_ENTRIES:
+            # one contribution with one absorber: {'Absorption': (flux, tau, extra)} / {'Absorption': [('H2O', flux, tau, extra)]}
+            g, d = m.model_contrib() if entry == 'contrib' else m.model_full_contrib()
+            g = np.asarray(g, dtype=float)
+            if not isinstance(d, dict) or sorted(d) != ['Absorption']:
+                raise BadReturn('%s() returned contributions %r' % ('model_' + entry, sorted(d) if isinstance(d, dict) else type(d)))
+            item = d['Absorption']
+            if entry == 'full_contrib':
+                if not isinstance(item, (list, tuple)) or len(item) != 1 or item[0][0] != MOL:
+                    raise BadReturn('model_full_contrib() returned components %r' % ([x[0] for x in item],))
+                out = np.asarray(item[0][1], dtype=float)
+            else:
+                out = np.asarray(item[0], dtype=float)
+            if g.shape != WN.shape or not np.array_equal(g, WN) or out.shape != WN.shape:
+                raise BadReturn('model_%s() returned grid %r, spectrum of shape %r' % (entry, g, out.shape))
+            return out
         g, out, _, _ = m.model()
         g, out = np.asarray(g, dtype=float), np.asarray(out, dtype=float)
         if g.shape != WN.shape or not np.array_equal(g, WN) or out.shape != WN.shape:
@@ -161,7 +190,7 @@ class World:
         return out
 
     def fresh(self, entry, c):
-        key = (entry, c['rp'], c['ts'], c['dist'], tuple(c['quad']), c['mode'])
+        key = (entry, c['rp'], c['ts'], c['dist'], c.get('tp', 0), c.get('mix', 0), tuple(c['quad']), c['mode'])
         if key not in self.fresh_cache:
             self.fresh_cache[key] = self.evaluate(self.build(c), entry, c)
         return self.fresh_cache[key]
@@ -212,17 +241,17 @@ class World:
     def blackbody_ratio(self, c):
         from taurex.constants import RJUP, RSOL
         geo = (RP[c['rp']] * RJUP / (STAR_R * RSOL)) ** 2
-        return np.array([fx.planck_b(w, T_ISO) / fx.planck_b(w, TS[c['ts']]) * geo for w in WN])
+        return np.array([fx.planck_b(w, T_ISO[c.get('tp', 0)]) / fx.planck_b(w, TS[c['ts']]) * geo for w in WN])
 
     def not_saturated(self):
         # largest column of the cross-section world: N ~ 1/g ~ Rp^2; the clamp needs depth >= 10 at EVERY wavenumber
-        return float(np.min(TARGET_TAU)) * (max(RP) / RP[0]) ** 2 * 1.5 < 10.0
+        return float(np.min(TARGET_TAU)) * (max(RP) / RP[0]) ** 2 * 1.5 * (max(MIX) / MIX[0]) * (max(T_SURF + T_ISO) / min(T_ISO)) < 10.0
 
 
 def step_label(s):
     if s[0] == 'eval':
         return s[1] + '()'
-    return {'rp': 'planet_radius/' + str(s[2]), 'ts': 'star.temperature', 'dist': 'star.distance',
+    return {'tp': 'temperature_point', 'mix': 'mixing_ratio', 'rp': 'planet_radius/' + str(s[2]), 'ts': 'star.temperature', 'dist': 'star.distance',
             'num_gauss': 'set_num_gauss', 'quadratures': 'set_quadratures', 'mode': 'opacity_method=' + str(s[2])}[s[1]]
 
 
@@ -235,7 +264,7 @@ def run_world(ctx, world, walks, code_raised, cfg, rebuild_every=16):
     groups = {}
     for wk in walks:
         i = wk['init']
-        groups.setdefault((i['rp'], i['ts'], i['dist'], tuple(i['quad']), i['mode']), []).append(wk)
+        groups.setdefault((i['rp'], i['ts'], i['dist'], i.get('tp', 0), i.get('mix', 0), tuple(i['quad']), i['mode']), []).append(wk)
     nev = 0
     for key in sorted(groups):
         m, cur = None, None
@@ -255,7 +284,7 @@ def run_world(ctx, world, walks, code_raised, cfg, rebuild_every=16):
                     trail.append(step_label(s))
                     if s[0] == 'set':
                         world.apply(m, s[1], s[2], s[3])
-                        if s[1] in ('rp', 'ts', 'dist'):
+                        if s[1] in PHYS:
                             cur[s[1]] = s[3]
                         elif s[1] == 'num_gauss':
                             cur['quad'] = ['gauss', s[3]]
@@ -274,16 +303,23 @@ def run_world(ctx, world, walks, code_raised, cfg, rebuild_every=16):
                                 detail='%s after %s (start %r): long-lived model %r, freshly built model of the current settings %r %r'
                                        % (world.name, ' '.join(trail), init, got[:4].tolist(), cur, exp[:4].tolist()), vector=vec)
                     doc = world.documented(m, s[1], cur)
+                    if s[1] in CONTRIB_ENTRIES:
+                        # one contribution: its spectrum is the whole model's (relation to a FRESH model's model())
+                        ref = world.fresh('model', cur)
+                        ctx.verdict('evaluation_uses_current_settings', got.shape == ref.shape and bool(np.all(np.isfinite(got))) and
+                                    bool(np.all(np.abs(got - ref) <= REL * np.abs(ref))), cls=cls + ':vs-model()',
+                                    detail='%s after %s: model_%s() of the only contribution %r, model() of a freshly built model of %r: %r'
+                                           % (world.name, ' '.join(trail), s[1], got[:4].tolist(), cur, ref[:4].tolist()), vector=vec)
                     if world.kind == 'emission' or s[1] == 'partial':
                         okd = got.shape == doc.shape and bool(np.all(np.isfinite(got))) and \
                             bool(np.all(np.abs(got - doc) <= REL * np.abs(doc)))
-                        ctx.verdict('eclipse_flux_formula' if s[1] == 'model' else 'intensity_formula', okd, cls=cls,
+                        ctx.verdict('eclipse_flux_formula' if s[1] != 'partial' else 'intensity_formula', okd, cls=cls,
                                     detail='%s after %s: got %r, documented integral for the current settings %r: %r'
                                            % (world.name, ' '.join(trail), got[:4].tolist(), cur, doc[:4].tolist()), vector=vec)
                     elif got.shape == doc.shape:
                         for x in (got / doc).tolist():
                             world.direct_ratios.append((x, cls, vec))
-                    if world.iso and s[1] == 'model':
+                    if world.iso and s[1] != 'partial':
                         if world.kind == 'emission':
                             r = got / world.blackbody_ratio(cur)
                             oki = bool(np.all(np.isfinite(r))) and float(r.min()) >= 1 - REL and float(r.max()) <= 1 + REL
